@@ -23,7 +23,7 @@ m("C18", "token-walker-touches-position", "src/nodes/token.rs",
 m("C18", "retain-predicate-flipped", "src/nodes/token.rs",
   "pub fn clear_comments(&mut self) {\n        self.leading_trivia\n            .retain(|trivia| trivia.kind() != TriviaKind::Comment);",
   "pub fn clear_comments(&mut self) {\n        self.leading_trivia\n            .retain(|trivia| trivia.kind() == TriviaKind::Comment);",
-  "C18.only-trivia|clear_comments|pred")
+  "C18.only-trivia|clear_comments|transfer")
 m("C18", "shift-at-end-again", "src/rules/append_text_comment.rs",
   "        match self.location {\n            AppendLocation::Start => {\n                let shift_lines = text.lines().count();\n                ShiftTokenLine::new(shift_lines as isize).flawless_process(block, context);\n",
   "        let shift_lines = text.lines().count();\n        ShiftTokenLine::new(shift_lines as isize).flawless_process(block, context);\n        match self.location {\n            AppendLocation::Start => {\n",
